@@ -116,6 +116,18 @@ func (x *Exec) generate() {
 			pre = append(pre, g)
 		}
 	}
+	// materialise, in the entry state, every heap component the postconditions mention: states that are merged
+	// after only one branch havocked such a component then keep the other branch's value
+	{
+		errs := []string{}
+		menv := x.topSpecEnv(st, True, false)
+		menv.errs = &errs
+		for _, c := range x.Case.Clauses {
+			if c.Kind == "ensures" {
+				menv.eval(c.Expr)
+			}
+		}
+	}
 	// ghost definitions: a ghost flag nobody writes is defined, for this activation, by a formula over the entry state
 	for _, c := range x.Case.Clauses {
 		if c.Kind != "ghostdef" {
